@@ -214,6 +214,7 @@ class Ghost(VC):
 def vcs(tier):
     out = [Spend(1, 2), Spend(2, 1), Grant("IncreaseAllowance"), Grant("DecreaseAllowance"),
            Ghost("Execute"), Ghost("IncreaseAllowance"), Ghost("DecreaseAllowance"), Ghost("SetPermissions")]
+    out += [Spend(1, 4)]
     if tier == "thorough": out += [Spend(2, 2)]
     return out
 
